@@ -17,7 +17,7 @@ DEV = {"C27": [("dev_stop", "C27_NoEffect"), ("dev_stop_refused", "C27_Refused")
                ("reach_fetchout", "Reach_AuthorisedFetchOut")],
        "C28": [("dev_ratekey", "C28_Rate"), ("dev_ratekey_fetch", "C28_Rate"), ("dev_refund", "C28_Rate"), ("reach_ratelimited", "Reach_RateLimited"),
                ("reach_sliding", "Reach_SlidingWindow"), ("reach_overcap", "Reach_OverCapRefused"), ("reach_pow", "Reach_PowRefused")],
-       "C29": [("dev_rawnl", "C29_RoundTrip"), ("dev_rawnl_list", "C29_ListComplete"), ("reach_list3", "Reach_ListThree"),
+       "C29": [("dev_rawnl", "C29_RoundTrip"), ("dev_trim", "C29_RoundTrip"), ("dev_rawnl_list", "C29_ListComplete"), ("reach_list3", "Reach_ListThree"),
                ("reach_multiline", "Reach_MultiLineValue")]}
 NOTE = {"auth": "token configured: 6 token variants x 3 header positions x {STORE, FETCH stream, FETCH OUT, STOP, LIST, PING} x 2 chunks; effects stored/registered/files/running",
         "admit": "STORE admission: declared length {under, at, over cap} x TTL {absent, below, min, mid, max, above, garbage} x PoW {valid, invalid, missing}",
@@ -25,7 +25,7 @@ NOTE = {"auth": "token configured: 6 token variants x 3 header positions x {STOR
         "ratebad": "no token, store PoW on: STORE rate bucket of one address, window 3, limit 2, requests refused on size / TTL / PoW interleaved with admissible ones",
         "ratefetch": "no token: streamed-FETCH rate buckets, window 3, limit 2, TOKEN header in {none, a, b}",
         "frame": "Serialize/Parse of LIST (0-3 chunks), two free values from the 9-value table in every field order, warnings lists, payloads; framing lemma Parse(Serialize(x)) = x as ASSUME"}
-VALUES_N = 9      # ValueTable of Control.tla = the first 9 entries of the harness's kValues
+VALUES_N = 11     # ValueTable of Control.tla = the first 11 entries of the harness's kValues
 
 
 def model_check(chk):
@@ -259,7 +259,7 @@ def random_rate(rng, n):
 
 def random_frame(rng, n):
     out = []
-    allv = 15
+    allv = 22
     for _ in range(n):
         tok = rng.random() < 0.2
         lines = ["reset token=%d pow=%d cap=4000000" % (tok, rng.choice([0, 0, 4]))]
